@@ -237,6 +237,8 @@ func (p *Packer) packWalkFn(root, src, dst string, tarW *tar.Writer, meta *Meta,
 		}
 
 		fm := info.Mode()
+		// The file whose data is copied into the archive.
+		bodyPath := path
 		// An "Unknown" format is imposed because this is the default but also because
 		// it imposes the simplest behavior. Notably, the mod time is preserved by rounding
 		// to the nearest second. During unpacking, these rounded timestamps are restored
@@ -314,6 +316,11 @@ func (p *Packer) packWalkFn(root, src, dst string, tarW *tar.Writer, meta *Meta,
 			header.Mode = int64(resolved.info.Mode().Perm())
 			header.Size = resolved.info.Size()
 			writeBody = true
+			// Copy the data of the file the header describes. Opening the link
+			// itself would let the operating system resolve it, which ends at a
+			// different file when the target passes through a linked directory
+			// and then "..".
+			bodyPath = resolved.absTarget
 
 		default:
 			return fmt.Errorf("unexpected file mode %v", fm)
@@ -332,7 +339,7 @@ func (p *Packer) packWalkFn(root, src, dst string, tarW *tar.Writer, meta *Meta,
 			return nil
 		}
 
-		f, err := os.Open(path)
+		f, err := os.Open(bodyPath)
 		if err != nil {
 			return fmt.Errorf("failed opening file %q for archiving: %w", path, err)
 		}
